@@ -262,7 +262,7 @@ func (g *genCtx) genCtor(s int) *Func {
 			if ft.As && g.r.P(0.12) {
 				// declared with an interface type directly (no As): the same
 				// keys an As registration elsewhere may claim
-				t = TIface + g.r.Intn(NumI)
+				t = TIface + g.r.Intn(NumIX)
 			}
 			r = Result{Kind: RSingle, T: t, Name: g.name()}
 			if len(ft.Groups) > 0 && g.r.P(0.25) {
@@ -292,8 +292,17 @@ func (g *genCtx) genCtor(s int) *Func {
 		f.OptName = res[0].Name
 		f.Results = []Result{{Kind: RSingle, T: res[0].T}}
 		if ft.As && !IsIface(res[0].T) && g.r.P(0.25) {
-			for j := 0; j < NumI; j++ {
-				if Implements(res[0].T, j) && g.r.P(0.6) {
+			for j := 0; j < NumIX; j++ {
+				if Implements(res[0].T, j) && g.r.P(0.5) {
+					f.OptAs = append(f.OptAs, j)
+				}
+			}
+		}
+		if ft.As && IsIface(res[0].T) && g.r.P(0.4) {
+			// declared with an interface type and provided As interfaces it
+			// implements (itself included or not)
+			for j := 0; j < NumIX; j++ {
+				if IfaceImplements(res[0].T-TIface, j) && g.r.P(0.6) {
 					f.OptAs = append(f.OptAs, j)
 				}
 			}
@@ -303,8 +312,15 @@ func (g *genCtx) genCtor(s int) *Func {
 		f.OptFlatten = res[0].Flatten
 		f.Results = []Result{{Kind: RSingle, T: res[0].T}}
 		if ft.As && !f.OptFlatten && !IsIface(res[0].T) && g.r.P(0.35) {
-			for j := 0; j < NumI; j++ {
-				if Implements(res[0].T, j) && g.r.P(0.6) {
+			for j := 0; j < NumIX; j++ {
+				if Implements(res[0].T, j) && g.r.P(0.5) {
+					f.OptAs = append(f.OptAs, j)
+				}
+			}
+		}
+		if ft.As && !f.OptFlatten && IsIface(res[0].T) && g.r.P(0.3) {
+			for j := 0; j < NumIX; j++ {
+				if IfaceImplements(res[0].T-TIface, j) && g.r.P(0.6) {
 					f.OptAs = append(f.OptAs, j)
 				}
 			}
